@@ -1079,7 +1079,7 @@ void ecpNegA(word b[], const word a[], const ec_o* ec)
 	// pre
 	ASSERT(ecIsOperable(ec));
 	ASSERT(ecpSeemsOnA(a, ec));
-	ASSERT(wwIsSameOrDisjoint(a, b, 3 * n));
+	ASSERT(wwIsSameOrDisjoint(a, b, 2 * n));
 	// (xb, yb) <- (xa, -ya)
 	qrCopy(ecX(b), ecX(a), ec->f);
 	zmNeg(ecY(b, n), ecY(a, n), ec->f);
